@@ -185,7 +185,8 @@ def run_property(prop, tier, seed):
         if gname in gmap and label != "(whole group)":
             und_by_group.setdefault(gname, []).append(label)
     if und_by_group:
-        sjobs = [((gn,), _random_search, (("props." + prop, gn, labs, seed),), 180) for gn, labs in und_by_group.items()]
+        sjobs = [((gn,), _random_search, (("props." + prop, gn, (None if any(l.startswith("harness completed") for l in labs) else labs), seed),), 180)
+                 for gn, labs in und_by_group.items()]
         sres = runner.run_functions(sjobs)
         for gn, labs in und_by_group.items():
             rr = sres.get((gn,), {})
@@ -193,7 +194,7 @@ def run_property(prop, tier, seed):
             for lab, vals in fnd.items():
                 ob = dict(label=lab, kind="ensures", path="random-search", status="refuted", backend="random concrete search (solver undecided)", seconds=0.0, model=vals, notes=[])
                 replay_jobs.append((gmap[gn], ob))
-                undecided[:] = [u for u in undecided if not (u[0] == gn and (u[1].startswith(lab) or lab.startswith(u[1])))]
+                undecided[:] = [u for u in undecided if not (u[0] == gn and (u[1].startswith(lab) or lab.startswith(u[1]) or u[1].startswith("harness completed")))]
 
     # native replay of every counter-model
     rjobs = [((i,), _replay_values, (("props." + prop, g.name, ob.get("model", {}), tier),), 120) for i, (g, ob) in enumerate(replay_jobs)]
